@@ -129,12 +129,22 @@ def _run(ctx: RunCtx, sched: Scheduler, rec: T.Recorder) -> None:
                 cluster.workers[wk].restart()
                 seen.discard(wk)
                 ch.fault("restart")
-            form = ch.choose(3, f"p{j}.{tname}.form")  # 0 turn with the minting method's body, 1 with the target's, 2 cancel
+            # 0 turn with the minting method's body, 1 with the target's, 2 cancel, 3 MIXED pair: the minting stream's cursor with
+            # a call token the target method minted itself (for the same caller) - the cursor is not method-bound on its own
+            form = ch.choose(4, f"p{j}.{tname}.form")
             kind = m.kind if form == 0 else t.kind
             temp = "cold" if cold(wk) else "warm"
             n += 1
             label = ("mis", n)
-            body = T.turn_body(kind, cur, call, cancel=(form == 2), v=3)
+            use_call = call
+            if form == 3:
+                rt_ = net.post(wk, f"/{tname}/init", T.init_body(tname, 700 + n), identity, label=("mixinit", n))
+                pt_ = T.parse_response(rt_)
+                if pt_.status != 200 or pt_.call is None:
+                    raise RuntimeError(f"honest init of the target method failed: {pt_.status} {pt_.errors}")
+                use_call = pt_.call
+                ch.fault("misroute:mixed-pair")
+            body = T.turn_body(kind, cur, use_call, cancel=(form == 2), v=3)
             r = net.post(wk, f"/{tname}/exchange", body, identity, label=label)
             ch.fault(f"misroute:{rel}:{temp}")
             if form == 2:
@@ -147,9 +157,10 @@ def _run(ctx: RunCtx, sched: Scheduler, rec: T.Recorder) -> None:
             pr = T.parse_response(r)
             ctx.log.add("mis", mname, tname, j, wk, temp, form, r.status_code, [e[1] for e in evs], pr.errors[:1])
             desc = (f"token pair #{j} of {mname} (state {m.mint}, declared {m.states}) presented by its owner to w{wk} "
-                    f"POST /{tname}/exchange (declares {t.states}; {temp} cache; {'cancel' if form == 2 else kind + ' turn'})")
+                    f"POST /{tname}/exchange (declares {t.states}; {temp} cache; {'cancel' if form == 2 else kind + ' turn'}"
+                    f"{'; MIXED: with a call token ' + tname + ' minted itself' if form == 3 else ''})")
             ran = [e[1] for e in evs]
-            site = f"{rel}:{temp}"
+            site = f"{rel}:{temp}" + (":mixed-pair" if form == 3 else "")
             if evs or (r.status_code == 200 and not pr.errors):
                 # the foreign endpoint opened the pair and ran its state class on it (D4)
                 proc = [e for e in evs if e[1] in ("process", "cancel")]
